@@ -73,6 +73,7 @@ package util
 //@   use T3(m)
 //@   ensures {C06,C07} ok == (nResults(m) == 1 || (nResults(m) == 2 && isErrorT(resultType(m, 1))))
 //@   ensures {C06,C07} ok ==> ret == resultType(m, 0) && ret != nil && retError == (nResults(m) == 2)
+//@   ensures is(typeOfObj(m), *types.Signature) && as(typeOfObj(m), *types.Signature) != nil
 //@   ensures !ok ==> ret == nil && !retError
 
 // ---- import table (C08, C13, C01) ---------------------------------------------------------------------------------
